@@ -492,6 +492,7 @@ func genC15() {
 	// (gen_errors c15etcd / c15ticker): a failure there does not stop the Redis scripts
 	runGen("c15etcd", genC15Etcd)
 	runGen("c15ticker", genC15Ticker)
+	runGen("c15arith", genC15Arith)
 	fset, f := parseFile("pkg/cluster/redis_election.go")
 	// glue facts: Renew and Leader bodies (printed, whitespace-normalised)
 	for _, m := range []string{"Renew", "Leader"} {
